@@ -32,7 +32,7 @@ T = {
  "C07": ("explicit-state BFS over reachable molecular states with the engine's random draws owned by the harness (all u of a finite grid in every state) + per-step legality on seed-enumerated runs",
          "With the probe build every uniform draw is supplied by the harness, so the Gillespie engine is a deterministic labelled transition system; in every reachable state of small systems every u of a grid is applied on the real engine and each transition is checked for legality and each effect's u-measure against its CME probability; tau-leap Poisson means are read from the probe log.",
          "libstdc++ mt19937 / poisson_distribution are trusted; u-grid resolution bounds the measure error ((B+1)/M); state-space bounds", "3/C07"),
- "C08": ("exhaustive enumeration of driver schedules (iterate / iterate_n / run slices under a scripted clock) and of process histories, of in-place edits of script / stored-script / trajectory objects and of the simulate() wrapper's keyword forms; bit-identity with a baseline execution in a pristine process",
+ "C08": ("exhaustive enumeration of driver schedules (iterate / iterate_n / run slices under a scripted clock) and of process histories, of in-place edits of script / stored-script / trajectory objects and of the simulate() wrapper's keyword forms; histories of the coarse-grained route and of unit conversions each executed in its own pristine process; bit-identity with a baseline execution in a pristine process",
          "Every partition of the iteration sequence into driver calls up to the bound, including run() slices whose end is decided by the harness-owned clock, and every ordered pair of (previous simulation, this simulation) is executed on the real engine and compared bit-for-bit with the one-iterate-at-a-time baseline.",
          "bounded iteration counts; clock owned through the probe build (blind probe => only 1-iteration and to-completion slices)", "3/C08"),
  "C09": ("exhaustive enumeration of request lists on an exact time lattice x t_max x policies x engines; reference sampling contract evaluated on the implementation's own step sequence",
@@ -53,7 +53,7 @@ T = {
  "C14": ("exhaustive enumeration of dyadic real-valued initial states x seeds x modes x engines; invariants on the t=0 record; probe log of Poisson draws",
          "All assignments of the value alphabet to small states are set up on the real engine in supervised workers (hang detection); totals, integrality, zero preservation, reproducibility and per-entry Poisson means are checked.",
          "dyadic alphabet makes floor(total) exact; seed window", "3/C14"),
- "C15": ("complete enumeration of all grid shapes <= 4^3 x 8 boundary combinations x all cells / cell pairs / position forms; grid vs. graph equivalence on every such grid",
+ "C15": ("complete enumeration of all grid shapes <= 4^3 x 8 boundary combinations x all cells / cell pairs / position forms; grid vs. graph equivalence on every such grid (states after 3 Euler steps; recorded times and states under 8 sampling configurations)",
          "Index/coordinate bijection, rejection of outside positions, neighbour relation in four implementations (query, pair test, Python kinetics, native engine) and grid_to_graph equivalence are checked for every grid of the bound.",
          "reference layout/neighbour relation; Python kinetics limited to <= 12 cells", "3/C15"),
  "C16": ("complete enumeration of all index maps {-1..m}^n of small 1-D/2-D/3-D grids, classified by a reference validity predicate and compared with brute-force coarse-graining",
